@@ -54,6 +54,16 @@ fn key_for(g: u64) -> Key {
     Key { name: RName::simple(&format!("k-{}.", g)), alg: Alg::Sha256, secret }
 }
 
+/// The rolled-over key: same name in every key set, a different secret
+/// per generation.
+fn rot_key_for(g: u64) -> Key {
+    let mut secret = Vec::new();
+    for i in 0..4u64 {
+        secret.extend_from_slice(&crate::rng::fnv1a(&[g.to_be_bytes(), (i + 100).to_be_bytes()].concat()).to_be_bytes());
+    }
+    Key { name: RName::simple("rot."), alg: Alg::Sha256, secret }
+}
+
 fn marker(label: &[u8], prefix: &str) -> Option<u64> {
     let s = std::str::from_utf8(label).ok()?;
     s.strip_prefix(prefix)?.parse().ok()
@@ -196,9 +206,10 @@ fn reader_loop(shared: Arc<Shared>, tid: usize, signed: bool, seed: u64, problem
         let (req, key, sent_mac) = if signed {
             // sign with the key of the generation last seen (or a fresh look at what is published)
             let kg = if rng.chance(1, 3) { shared.key_published.load(Ordering::SeqCst) } else { last_key_gen };
-            let key = key_for(kg);
+            let rot = rng.bool();
+            let key = if rot { rot_key_for(kg) } else { key_for(kg) };
             let (r, _, sent) = sign_request(&base, &key, &SignOpts::at(now));
-            (r, Some((kg, key)), sent)
+            (r, Some((kg, key, rot)), sent)
         } else {
             (base, None, Vec::new())
         };
@@ -257,7 +268,7 @@ fn reader_loop(shared: Arc<Shared>, tid: usize, signed: bool, seed: u64, problem
                 stats[2].fetch_add(1, Ordering::Relaxed); // a swap overlapped this request
             }
         }
-        if let Some((kg, key)) = key {
+        if let Some((kg, key, rot)) = key {
             let t = match m.tsig() {
                 Some(t) => t.clone(),
                 None => {
@@ -294,13 +305,15 @@ fn reader_loop(shared: Arc<Shared>, tid: usize, signed: bool, seed: u64, problem
                 }
                 stats[3].fetch_add(1, Ordering::Relaxed);
                 last_key_gen = kg;
-            } else if f.error == RC_BADKEY && m.ext_rcode() == RC_NOTAUTH {
+            } else if f.error == (if rot { RC_BADSIG } else { RC_BADKEY }) && m.ext_rcode() == RC_NOTAUTH {
+                // the rolled-over name is in every key set (a stale secret gives BADSIG);
+                // the per-generation names are in exactly one (a stale name gives BADKEY)
                 if answered || !f.mac.is_empty() {
-                    report("badkey-with-data", "BADKEY response carries answer data or a MAC".into(), Some(r.clone()));
+                    report("badkey-with-data", "BADKEY/BADSIG response carries answer data or a MAC".into(), Some(r.clone()));
                     continue;
                 }
                 if key_lo == key_hi && key_lo == kg {
-                    report("current-key-rejected", format!("key generation {} was the only one that could be current, yet BADKEY", kg), Some(r.clone()));
+                    report("current-key-rejected", format!("key generation {} was the only one that could be current, yet TSIG error {}", kg, f.error), Some(r.clone()));
                     continue;
                 }
                 stats[4].fetch_add(1, Ordering::Relaxed);
@@ -323,7 +336,7 @@ pub fn run(ctx: &Ctx, rep: &mut Report) {
     let gens = if ctx.is_miri() { 6 } else { 300 };
     // generation catalogs and key sets are built once per shard
     let catalogs: Vec<Arc<QCatalog>> = (0..gens as u64).map(|g| Arc::new(gen_catalog_for(g))).collect();
-    let keysets: Vec<Arc<quandary::server::TsigKeyMap>> = (0..gens as u64).map(|g| Arc::new(key_map(&[key_for(g)]))).collect();
+    let keysets: Vec<Arc<quandary::server::TsigKeyMap>> = (0..(gens * 8) as u64).map(|g| Arc::new(key_map(&[key_for(g), rot_key_for(g)]))).collect();
     for case in ctx.case_range(n) {
         rep.current_case = case;
         let mut rng = ctx.rng("c32", case);
@@ -362,7 +375,8 @@ pub fn run(ctx: &Ctx, rep: &mut Report) {
         let budget = Duration::from_millis(if ctx.is_miri() { 60_000 } else { 60 });
         let mut swaps = 0u64;
         loop {
-            let more = if swaps % 2 == 0 { shared.swap_catalog() } else { shared.swap_keys() };
+            // catalogs run out first; key rollovers continue until the budget ends
+            let more = if swaps % 2 == 0 { shared.swap_catalog() || shared.swap_keys() } else { shared.swap_keys() };
             swaps += 1;
             if !more || started.elapsed() > budget {
                 break;
